@@ -348,6 +348,9 @@ func runC04(c *run.Ctx, s *kit.Summary) {
 	}
 	wg.Wait()
 	st.Diff(c.Driver, s)
+	for i := 0; i < c.N(3, 40); i++ {
+		twoAttacks(s, r)
+	}
 	// last: these attacks cannot be ended (the loop sleeps for the wait it was given), so their goroutines stay
 	for i := 0; i < c.N(10, 120); i++ {
 		pk := parkCase{Workers: uint64(r.Pick(4)), Max: uint64(1 + r.Pick(4))}
@@ -423,4 +426,87 @@ func parked(pk parkCase, s *kit.Summary) {
 		s.Violate(kit.Violation{Kind: "hit_started_before_wait_elapsed", What: "a hit started although the wait its pacer answer asked for (practically endless) cannot have elapsed",
 			Input: pk, Expected: fmt.Sprint("<= ", len(pk.Before), " hits"), Observed: fmt.Sprint(hits)})
 	}
+}
+
+// twoAttacks: one Attacker carries out two attacks side by side (Attack called again while the first is still
+// running), each with its own recording pacer. For EACH attack the elapsed time handed to its pacer must be
+// non-decreasing and measured from THAT attack's start: the start lies between the call of Attack and its
+// return, so at a consultation at harness time t:  t − returned ≤ elapsed ≤ t − called  (with slack for the
+// time between the clock read inside the loop and the recording).
+func twoAttacks(s *kit.Summary, r *kit.Rng) {
+	client := attackctl.NewFakeClient(func(seq uint64) {})
+	atk := vegeta.NewAttacker(vegeta.Workers(2), vegeta.MaxWorkers(4), vegeta.Client(client))
+	tr := vegeta.NewStaticTargeter(vegeta.Target{Method: "GET", URL: "http://verif.invalid/"})
+	mk := func(n int) *recPacer {
+		p := &recPacer{}
+		for j := 0; j < n; j++ {
+			p.answers = append(p.answers, answer{time.Duration(r.PickI64([]int64{1000000, 2000000, 3000000})), false})
+		}
+		p.answers = append(p.answers, answer{0, true})
+		return p
+	}
+	gap := time.Duration(20+r.Pick(40)) * time.Millisecond
+	p1, p2 := mk(40+r.Pick(30)), mk(10+r.Pick(20))
+	t0 := time.Now()
+	p1.t0, p2.t0 = t0, t0
+	called1 := time.Since(t0)
+	res1 := atk.Attack(tr, p1, 0, "first")
+	returned1 := time.Since(t0)
+	done := make(chan struct{}, 2)
+	go func() {
+		for range res1 {
+		}
+		done <- struct{}{}
+	}()
+	time.Sleep(gap)
+	called2 := time.Since(t0)
+	res2 := atk.Attack(tr, p2, 0, "second")
+	returned2 := time.Since(t0)
+	go func() {
+		for range res2 {
+		}
+		done <- struct{}{}
+	}()
+	for k := 0; k < 2; k++ {
+		select {
+		case <-done:
+		case <-time.After(60 * time.Second):
+			s.Violate(kit.Violation{Kind: "attack_does_not_end", What: "one of two attacks run by one Attacker did not end within 60 s after its pacer said stop"})
+			return
+		}
+	}
+	s.Case(fmt.Sprint("two-attacks:", gap), true)
+	s.Count("two_attacks_on_one_attacker")
+	in := map[string]interface{}{"scenario": "Attack called twice on one Attacker, the second while the first is running", "gap_ns": int64(gap)}
+	check := func(name string, p *recPacer, called, returned time.Duration) {
+		p.mu.Lock()
+		log := append([]consult{}, p.log...)
+		p.mu.Unlock()
+		const slack = int64(time.Second) // scheduling noise between the loop's clock read and the recording
+		for j, cl := range log {
+			if j > 0 && cl.Elapsed < log[j-1].Elapsed {
+				s.Violate(kit.Violation{Kind: "pace_elapsed_decreased", What: "elapsed time went backwards between consultations of the " + name + " attack's pacer", Input: in,
+					Observed: fmt.Sprint(log[j-1].Elapsed, " then ", cl.Elapsed)})
+				return
+			}
+			// measured from this attack's start: not smaller than (time of the consultation − time Attack returned) − slack
+			if lb := cl.RetAt - int64(returned) - slack; cl.Elapsed < lb {
+				s.Violate(kit.Violation{Kind: "pace_elapsed_not_from_attack_start", What: "the elapsed time handed to the " + name + " attack's pacer is not measured from that attack's start", Input: in,
+					Expected: fmt.Sprint(">= ", lb, " (consultation at ", cl.RetAt, ", Attack returned at ", int64(returned), ")"), Observed: fmt.Sprint(cl.Elapsed)})
+				return
+			}
+			if ub := cl.RetAt - int64(called); cl.Elapsed > ub {
+				s.Violate(kit.Violation{Kind: "pace_elapsed_not_from_attack_start", What: "the elapsed time handed to the " + name + " attack's pacer exceeds the time since Attack was called", Input: in,
+					Expected: fmt.Sprint("<= ", ub), Observed: fmt.Sprint(cl.Elapsed)})
+				return
+			}
+			if cl.Hits != uint64(j) {
+				s.Violate(kit.Violation{Kind: "pace_hits_argument", What: "the " + name + " attack's pacer was not consulted with its own count of released hits", Input: in,
+					Expected: fmt.Sprint(j), Observed: fmt.Sprint(cl.Hits)})
+				return
+			}
+		}
+	}
+	check("first", p1, called1, returned1)
+	check("second", p2, called2, returned2)
 }
